@@ -95,7 +95,7 @@ def plan(seed, subbatch):
             siblings.append([f"{unit}{k * mult}", fam.random() < 0.6])
         fired["sibling_members_on_coarser_timeframes"] += 1
     return {"format": 1, "property": ID, "seed": seed, "subbatch": subbatch,
-            "config": {"route": route, "tf": tf, "base_s": base_s, "spec": spec, "lifespan_s": lifespan,
+            "config": {"sim_now": planlib.pick_sim_now(sub_rng(seed, "sim-now"), rows), "route": route, "tf": tf, "base_s": base_s, "spec": spec, "lifespan_s": lifespan,
                        "shared_objects": shared, "siblings": siblings,
                        # gap filling next to the conversion: the recurrence runs over the FILLED collapsed series
                        "fill": fill},
